@@ -452,6 +452,9 @@ func constsBuildAll(r *runner, f *cfFacts) {
 // Skipped (and tagged) when node, the toolchain's wasm_exec_node.js or the probe are not there.
 func constsRunWasm(r *runner) {
 	self, _ := os.Executable()
+	if p386 := filepath.Join(filepath.Dir(self), "probe386"); fileExists(p386) {
+		constsRunProbe(r, "linux/386", "386", true, exec.Command(p386))
+	}
 	wasm := filepath.Join(filepath.Dir(self), "wasmprobe.wasm")
 	node, nerr := exec.LookPath("node")
 	goroot, _ := exec.Command("go", "env", "GOROOT").Output()
@@ -466,7 +469,15 @@ func constsRunWasm(r *runner) {
 		r.tag("wasm-run:unavailable")
 		return
 	}
-	cmd := exec.Command(node, execJS, wasm)
+	constsRunProbe(r, "js/wasm", "wasm", false, exec.Command(node, execJS, wasm))
+}
+
+func fileExists(p string) bool { _, err := os.Stat(p); return err == nil }
+
+// constsRunProbe runs the probe for one target and compares: target name, GetInfo(""), the two
+// compilations (error on a target without table, a program on linux/386), alias resolution (the same as
+// in this process, whatever the target), Supported() on non-Linux targets.
+func constsRunProbe(r *runner, target, goarch string, hasTable bool, cmd *exec.Cmd) {
 	done := make(chan struct{})
 	var out []byte
 	var rerr error
@@ -480,31 +491,55 @@ func constsRunWasm(r *runner) {
 		<-done
 	}
 	if rerr != nil && len(out) == 0 {
-		r.tag("wasm-run:failed-to-start")
+		r.tag("probe-run:" + target + ":failed-to-start")
 		return
 	}
-	r.tag("wasm-run:executed")
+	r.tag("probe-run:" + target + ":executed")
 	for _, l := range strings.Split(strings.TrimSpace(string(out)), "\n") {
 		f := strings.SplitN(l, " ", 2)
 		if len(f) != 2 {
 			continue
 		}
-		req := "K wasm-run js/wasm " + l
+		req := "K probe-run " + target + " " + l
 		switch f[0] {
 		case "target":
-			if f[1] != "js/wasm" {
-				r.mismatch(Mismatch{Case: "wasm-run", Request: req, Go: f[1], Model: "js/wasm", Note: "the probe did not run on js/wasm"})
+			if f[1] != target {
+				r.mismatch(Mismatch{Case: "probe-run", Request: req, Go: f[1], Model: target, Note: "the probe did not run on " + target})
 				return
+			}
+		case "alias":
+			r.count(req, true)
+			nf := strings.SplitN(f[1], " ", 2)
+			if len(nf) == 2 {
+				want := "error"
+				if info, err := arch.GetInfo(nf[0]); err == nil {
+					want = fmt.Sprintf("ok:%s:%d:%d", info.Name, len(info.SyscallNames), len(info.SyscallNumbers))
+				}
+				if nf[1] != want {
+					r.mismatch(Mismatch{Case: "probe-run:alias", Request: req, Go: nf[1], Model: want, Key: "consts:probe-run:" + target + ":alias:" + nf[0],
+						FailingInput: fmt.Sprintf("on %s arch.GetInfo(%q) answers %s, on %s/%s it answers %s: the answer for a non-empty name must not depend on the build target",
+							target, nf[0], nf[1], runtime.GOOS, runtime.GOARCH, want)})
+				}
 			}
 		case "getinfo":
 			r.count(req, true)
-			if f[1] != `error:"unsupported arch: wasm"` {
+			if hasTable {
+				if f[1] != "ok" {
+					r.mismatch(Mismatch{Case: "probe-run:getinfo", Request: req, Go: f[1], Model: "ok", Key: "consts:probe-run:" + target + ":getinfo",
+						FailingInput: "on " + target + " arch.GetInfo(\"\") answers " + f[1] + " although the target has a syscall table"})
+				}
+			} else if f[1] != `error:"unsupported arch: `+goarch+`"` {
 				r.mismatch(Mismatch{Case: "wasm-run:getinfo", Request: req, Go: f[1], Model: `error:"unsupported arch: wasm"`, Key: "consts:wasm-run:getinfo",
 					FailingInput: "on js/wasm (executed by node) arch.GetInfo(\"\") answers " + f[1] + "; the target has no syscall table and must get the unsupported-architecture error"})
 			}
 		case "assemble":
 			r.count(req, true)
-			if !strings.HasSuffix(f[1], `instructions=0 error:"unsupported arch: wasm"`) {
+			if hasTable {
+				if !strings.HasSuffix(f[1], " ok") || strings.Contains(f[1], "instructions=0 ") {
+					r.mismatch(Mismatch{Case: "probe-run:assemble", Request: req, Go: f[1], Model: "a program", Key: "consts:probe-run:" + target + ":assemble",
+						FailingInput: "on " + target + " Policy.Assemble answers `" + f[1] + "` for a valid policy"})
+				}
+			} else if !strings.HasSuffix(f[1], `instructions=0 error:"unsupported arch: `+goarch+`"`) {
 				r.mismatch(Mismatch{Case: "wasm-run:assemble", Request: req, Go: f[1], Model: `instructions=0 error:"unsupported arch: wasm"`, Key: "consts:wasm-run:assemble",
 					FailingInput: "on js/wasm (executed by node) Policy.Assemble answers `" + f[1] + "`; a target without a syscall table must get the unsupported-architecture error and no program"})
 			}
